@@ -65,11 +65,12 @@ def strip_cls(w):
     return w
 
 
-def dec(w, ruamel=False, cls=None):
+def dec(w, ruamel=False, cls=None, key=False):
     """wire -> python. Unwrapped dicts / lists are plain (ruamel: CommentedMap / CommentedSeq); a container wrapped
-    as {"cls": tag, "of": …} is an instance of the class with that model tag."""
+    as {"cls": tag, "of": …} is an instance of the class with that model tag. `key`: inside a mapping key an
+    unwrapped set is a frozenset (the only hashable one)."""
     if isinstance(w, dict) and 'cls' in w:
-        return dec(w['of'], ruamel, classes()[wire_kind(w['of'])][w['cls']])
+        return dec(w['of'], ruamel, classes()[wire_kind(w['of'])][w['cls']], key)
     if isinstance(w, list):
         if cls is None:
             cls = classes()['list'][2] if ruamel else list
@@ -78,11 +79,11 @@ def dec(w, ruamel=False, cls=None):
         if 'd' in w:
             if cls is None:
                 cls = classes()['dict'][2] if ruamel else dict
-            return cls([(dec(k, ruamel), dec(v, ruamel)) for k, v in w['d']])
+            return cls([(dec(k, ruamel, key=True), dec(v, ruamel)) for k, v in w['d']])
         if 't' in w:
-            return (cls or tuple)([dec(x, ruamel) for x in w['t']])
+            return (cls or tuple)([dec(x, ruamel, key=key) for x in w['t']])
         if 'set' in w:
-            return (cls or set)([dec(x, ruamel) for x in w['set']])
+            return (cls or (frozenset if key else set))([dec(x, ruamel, key=key) for x in w['set']])
         if 'jsonify' in w:
             from pypyr.dsl import Jsonify
             return Jsonify(dec(w['jsonify'], ruamel))
@@ -983,6 +984,17 @@ def has_cls_key(w, in_key=False):
     return False
 
 
+def has_expr_str(w):
+    """a str with a brace somewhere in the (key) wire value"""
+    if isinstance(w, str):
+        return '{' in w
+    if isinstance(w, list):
+        return any(has_expr_str(x) for x in w)
+    if isinstance(w, dict):
+        return any(has_expr_str(x) for key in ('of', 't', 'set') if key in w for x in [w[key]])
+    return False
+
+
 def impl_only(case):
     return (has_cls_key(case.get('ctx')) or has_cls_key(case.get('add'))
             or any(has_cls_key(o.get('add')) for o in case.get('ops', [])))
@@ -1408,7 +1420,9 @@ def random_case(rng):
             # keys of every hashable kind; 3 % of them with a frozenset (implementation-only cases)
             if rng.random() < 0.03:
                 return rng.choice([FS('a', 5), T('b', FS('key'))])
-            return rng.choice([5, -1, None, T(1, 'a'), T('a', T(5, 'b')), T('key', 'x_y'), {'f': [5, 1]}, {'b': '00'}])
+            # (no float keys here: `!jsonify` of a context value holding one is outside the shared jsonDumps model, which
+            # does not coerce float keys; float keys are in the directed keys:kinds family)
+            return rng.choice([5, -1, None, T(1, 'a'), T('a', T(5, 'b')), T('key', 'x_y'), {'b': '00'}])
         return rng.choice(KEYS)
 
     def expr_key(k, holders):
@@ -1515,7 +1529,7 @@ def random_case(rng):
         prs, seen = [], set()
         ex_pairs = existing['d'] if isinstance(existing, dict) and 'd' in existing else []
         # (an earlier incoming mapping may have expression keys: never re-used as a name)
-        cands = ([k for k, _ in ex_pairs if k not in ('lit1', 'lit2') and '{' not in canon(k)]
+        cands = ([k for k, _ in ex_pairs if k not in ('lit1', 'lit2') and not has_expr_str(k)]
                  + [rng.choice(KEYS) for _ in range(2)]
                  + ([nkey(1)] if not at_root or rng.random() < 0.15 else []))
         rng.shuffle(cands)
@@ -1577,7 +1591,7 @@ def random_case(rng):
                 continue
             seen.add(canon(kk))
             prs.append([kk, v])
-            if at_root and isinstance(v, dict) and 'b' in v:
+            if at_root and isinstance(k, str) and isinstance(v, dict) and 'b' in v:
                 bytes_keys.add(k)
             if at_root and isinstance(k, str):
                 exists = k in root_exists          # in the context by now (not only in the tree this one is derived from)
